@@ -338,11 +338,21 @@ CLAIMED.update({
     },
 })
 
+CLAIMED.update({
+    "C13": {
+        "technique": "static analysis: per impl of GroupValues, the sets of self fields written (assigned or mutably borrowed, local helpers followed) by intern / emit / clear_shrink, compared as sibling implementations of 'reset the store'",
+        "level": ("Static, every impl of GroupValues (6): each field that emit() resets and intern() advances (group counter, NULL-group id, key "
+                  "storage, hash map) is also written by clear_shrink(). Necessary for 'after a clear, ids start at the current group count and the "
+                  "reported count equals the live keys' (found clear_shrink forgetting num_groups in the bytes / bytes-view stores and null_group in "
+                  "the primitive store; repaired by fix commit 3af9c9c). Which ids are handed out, renumbering after emit-first-n and key equality "
+                  "are value-level and not decided."),
+    },
+})
+
 NA = {
     'C01': 'whole-pipeline value semantics over all queries x all table contents: functional verification, no clause visible in code shape beyond C03/C05/C47',
     'C08': 'ordering/permutation of runtime values (loser tree, cursors, heaps are value algorithms); no structural clause',
     'C11': 'number-theoretic identity over 2^64 x 2^64 values: needs a proof assistant or solver (a different family)',
-    'C13': 'history-dependent numbering of runtime keys',
     'C14': 'chain traversal over runtime hashes and offsets',
     'C22': 'soundness of the min/max rewrite is a semantic argument over value orders; its only table (Operator::swap) is decided under C04/C47',
     'C24': 'equality of row sets over file contents, statistics and reader options; pruning decisions are value computations',
